@@ -30,7 +30,7 @@ def response(rng, tier):
         status = b"HTTP/1.1 " + (b"%d" % code)          # no reason part at all: two tokens only
     elif form == 1:
         status = b"BOGUS"
-    head = status + b"".join(b"\r\n" + n + b": " + v for n, v in hs)
+    head = status + b"".join(b"\r\n" + n + rng.choice([b": ", b": ", b":", b":\t", b":  ", b" : "]) + v for n, v in hs)
     if form == 2:
         head += b"\r\nNoColonLine"
     return head + b"\r\n\r\n" + body, len(head)
